@@ -538,4 +538,333 @@ theorem threadPcf_hasVal {e : Emu} {n : Names} {p : Pcf} (h : threadPcf e n = .o
           have := a3 s hs hne info hinfo i hi v hv
           exact e4 _ _ this
 
+/-! ### the structures the emulator builds are well formed
+
+Every label of thread.pcf / cpu.pcf comes from a fixed table of the emulator
+(checked by evaluation), from a CPU name (`cpuName_no_nl`) or from the trace
+metadata: mark titles and labels, task type labels — those are the only
+hypotheses (`NamesWf`). -/
+
+/-- no newline in the labels that come from the metadata -/
+def NamesWf (n : Names) : Prop :=
+  (∀ m ∈ n.marks, '\n' ∉ m.title.toList ∧ ∀ l ∈ m.labels, '\n' ∉ l.2.toList) ∧
+  ∀ x ∈ n.tasks, ∀ ps ∈ x.2, ∀ t ∈ ps, '\n' ∉ t.2
+
+theorem pcfAddType_wf {p p' : Pcf} {id : Nat} {label : Text} (hp : PcfWf p) (hl : '\n' ∉ label)
+    (h : pcfAddType p id label = .ok p') : PcfWf p' := by
+  unfold pcfAddType at h
+  split at h
+  · cases h
+  · split at h
+    · cases h
+    · cases h
+      intro t ht
+      rcases List.mem_append.mp ht with ht | ht
+      · exact hp t ht
+      · rw [List.mem_singleton.mp ht]; exact ⟨hl, by simp⟩
+
+theorem pcfAddValue_wf {p p' : Pcf} {id : Nat} {v : Int} {label : Text} (hp : PcfWf p) (hl : '\n' ∉ label)
+    (h : pcfAddValue p id v label = .ok p') : PcfWf p' := by
+  unfold pcfAddValue at h
+  split at h
+  · cases h
+  · split at h
+    · cases h
+    · split at h
+      · cases h
+      · cases h
+        intro t ht
+        obtain ⟨t0, ht0, rfl⟩ := List.mem_map.mp ht
+        split
+        · refine ⟨(hp t0 ht0).1, ?_⟩
+          intro x hx
+          rcases List.mem_append.mp hx with hx | hx
+          · exact (hp t0 ht0).2 x hx
+          · rw [List.mem_singleton.mp hx]; exact hl
+        · exact hp t0 ht0
+
+theorem pcfAddValues_wf {id : Nat} : ∀ (vs : List (Int × Text)) {p p' : Pcf}, PcfWf p → (∀ v ∈ vs, '\n' ∉ v.2) →
+    pcfAddValues p id vs = .ok p' → PcfWf p' := by
+  intro vs
+  induction vs with
+  | nil => intro p p' hp _ h; simp only [pcfAddValues, Except.ok.injEq] at h; subst h; exact hp
+  | cons v r ih =>
+    intro p p' hp hl h
+    obtain ⟨v, l⟩ := v
+    simp only [pcfAddValues] at h
+    cases ha : pcfAddValue p id v l with
+    | error e => rw [ha] at h; cases h
+    | ok p1 =>
+      rw [ha] at h
+      exact ih (pcfAddValue_wf hp (hl (v, l) (by simp)) ha) (fun x hx => hl x (by simp [hx])) h
+
+/-- no newline in a string of the emulator's tables -/
+def strOk (s : String) : Bool := s.toList.all (· != '\n')
+
+theorem strOk_no_nl {s : String} (h : strOk s = true) : '\n' ∉ s.toList := by
+  intro hm
+  have := List.all_eq_true.mp h _ hm
+  revert this; decide
+
+def valsOk (vals : List (Int × String)) : Bool := vals.all fun l => strOk l.2
+
+theorem valsOk_no_nl {vals : List (Int × String)} (h : valsOk vals = true) :
+    ∀ v ∈ vals.map (fun v => (v.1, v.2.toList)), '\n' ∉ v.2 := by
+  intro v hv
+  obtain ⟨w, hw, rfl⟩ := List.mem_map.mp hv
+  exact strOk_no_nl (List.all_eq_true.mp h w hw)
+
+def infoOk (i : PcfInfo) : Bool := i.prefixes.all strOk && i.labels.all valsOk
+
+theorem pcfSuffix_ok (mode : Nat) : strOk (pcfSuffix mode) = true := by
+  unfold pcfSuffix
+  split
+  · decide
+  · split <;> decide
+
+theorem pcfCreateType_wf {p p' : Pcf} {type mode : Nat} {pre : String} {vals : List (Int × String)}
+    (hp : PcfWf p) (hpre : strOk pre = true) (hv : valsOk vals = true)
+    (h : pcfCreateType p type mode pre vals = .ok p') : PcfWf p' := by
+  unfold pcfCreateType at h
+  simp only at h
+  split at h
+  · cases h
+  · cases ha : pcfAddType p type (pre.toList ++ [' '] ++ (pcfSuffix mode).toList) with
+    | error e => rw [ha] at h; cases h
+    | ok p1 =>
+      rw [ha] at h
+      refine pcfAddValues_wf _ (pcfAddType_wf hp ?_ ha) (valsOk_no_nl hv) h
+      intro hm
+      rcases List.mem_append.mp hm with hm | hm
+      · rcases List.mem_append.mp hm with hm | hm
+        · exact strOk_no_nl hpre hm
+        · revert hm; decide
+      · exact strOk_no_nl (pcfSuffix_ok mode) hm
+
+theorem getD_all {α : Type} (l : List α) (f : α → Bool) (i : Nat) (d : α) (hl : l.all f = true) (hd : f d = true) :
+    f (l.getD i d) = true := by
+  rw [List.getD_eq_getElem?_getD]
+  cases hg : l[i]? with
+  | none => exact hd
+  | some x => exact List.all_eq_true.mp hl x (List.mem_of_getElem? hg)
+
+theorem pcfInitModel_wf (types tracks : List Nat) (info : PcfInfo) (hi : infoOk info = true) :
+    ∀ (is : List Nat) {p p' : Pcf}, PcfWf p → pcfInitModel types tracks info is p = .ok p' → PcfWf p' := by
+  have hi' := Bool.and_eq_true_iff.mp hi
+  intro is
+  induction is with
+  | nil => intro p p' hp h; simp only [pcfInitModel, Except.ok.injEq] at h; subst h; exact hp
+  | cons i r ih =>
+    intro p p' hp h
+    simp only [pcfInitModel] at h
+    cases ha : pcfCreateType p (types.getD i 0) (tracks.getD i 0) (info.prefixes.getD i "") (info.labels.getD i []) with
+    | error e => rw [ha] at h; cases h
+    | ok p1 =>
+      rw [ha] at h
+      exact ih (pcfCreateType_wf hp (getD_all _ _ _ _ hi'.1 (by decide)) (getD_all _ _ _ _ hi'.2 (by decide)) ha) h
+
+theorem pcfInitMarks_wf : ∀ (ms : List MarkType) {p p' : Pcf}, PcfWf p →
+    (∀ m ∈ ms, '\n' ∉ m.title.toList ∧ ∀ l ∈ m.labels, '\n' ∉ l.2.toList) →
+    pcfInitMarks ms p = .ok p' → PcfWf p' := by
+  intro ms
+  induction ms with
+  | nil => intro p p' hp _ h; simp only [pcfInitMarks, Except.ok.injEq] at h; subst h; exact hp
+  | cons t r ih =>
+    intro p p' hp hm h
+    simp only [pcfInitMarks] at h
+    cases ha : pcfAddType p (prvOvniMark + t.type.toNat) t.title.toList with
+    | error e => rw [ha] at h; cases h
+    | ok p1 =>
+      rw [ha] at h
+      simp only at h
+      cases hb : pcfAddValues p1 (prvOvniMark + t.type.toNat) (t.labels.map fun v => (v.1, v.2.toList)) with
+      | error e => rw [hb] at h; cases h
+      | ok p2 =>
+        rw [hb] at h
+        have ht := hm t (by simp)
+        refine ih (pcfAddValues_wf _ (pcfAddType_wf hp ht.1 ha) ?_ hb) (fun x hx => hm x (by simp [hx])) h
+        intro v hv
+        obtain ⟨w, hw, rfl⟩ := List.mem_map.mp hv
+        exact ht.2 w hw
+
+theorem info_ok_ovni : infoOk ⟨Ovni.pcfPrefix, Ovni.labels, Ovni.cpuPvtType⟩ = true := by decide +kernel
+theorem info_ok_nanos6 : infoOk ⟨Nanos6.pcfPrefix, Nanos6.labels, Nanos6.cpuPvtType⟩ = true := by decide +kernel
+theorem info_ok_nosv : infoOk ⟨Nosv.pcfPrefix, Nosv.labels, Nosv.cpuPvtType⟩ = true := by decide +kernel
+theorem info_ok_nodes : infoOk ⟨Nodes.pcfPrefix, Nodes.labels, Nodes.cpuPvtType⟩ = true := by decide +kernel
+theorem info_ok_tampi : infoOk ⟨Tampi.pcfPrefix, Tampi.labels, Tampi.cpuPvtType⟩ = true := by decide +kernel
+theorem info_ok_mpi : infoOk ⟨Mpi.pcfPrefix, Mpi.labels, Mpi.cpuPvtType⟩ = true := by decide +kernel
+theorem info_ok_kernel : infoOk ⟨Kernel.pcfPrefix, Kernel.labels, Kernel.cpuPvtType⟩ = true := by decide +kernel
+theorem info_ok_openmp : infoOk ⟨Openmp.pcfPrefix, Openmp.labels, Openmp.cpuPvtType⟩ = true := by decide +kernel
+
+/-- the label tables of the eight models contain no newline (regenerated tables) -/
+theorem pcfInfo_ok {ch : Nat} {info : PcfInfo} (h : pcfInfo ch = some info) : infoOk info = true := by
+  unfold pcfInfo at h
+  split at h
+  · cases h; exact info_ok_ovni
+  split at h
+  · cases h; exact info_ok_nanos6
+  split at h
+  · cases h; exact info_ok_nosv
+  split at h
+  · cases h; exact info_ok_nodes
+  split at h
+  · cases h; exact info_ok_tampi
+  split at h
+  · cases h; exact info_ok_mpi
+  split at h
+  · cases h; exact info_ok_kernel
+  split at h
+  · cases h; exact info_ok_openmp
+  cases h
+
+theorem pcfInitModels_wf (cpu : Bool) (marks : List MarkType)
+    (hm : ∀ m ∈ marks, '\n' ∉ m.title.toList ∧ ∀ l ∈ m.labels, '\n' ∉ l.2.toList) :
+    ∀ (ss : List ModelSpec) {p p' : Pcf}, PcfWf p → pcfInitModels cpu marks ss p = .ok p' → PcfWf p' := by
+  intro ss
+  induction ss with
+  | nil => intro p p' hp h; simp only [pcfInitModels, Except.ok.injEq] at h; subst h; exact hp
+  | cons s r ih =>
+    intro p p' hp h
+    simp only [pcfInitModels] at h
+    by_cases hmk : s.char = markGroup
+    · rw [if_pos hmk] at h
+      cases ha : pcfInitMarks marks p with
+      | error e => rw [ha] at h; cases h
+      | ok p1 => rw [ha] at h; exact ih (pcfInitMarks_wf _ hp hm ha) h
+    · rw [if_neg hmk] at h
+      cases hi : pcfInfo s.char with
+      | none => rw [hi] at h; cases h
+      | some info =>
+        rw [hi] at h
+        simp only at h
+        cases ha : pcfInitModel (if cpu then info.cpuType else s.pvtType) (if cpu then s.cpuTrack else s.thTrack)
+            info (List.range s.nch) p with
+        | error e => rw [ha] at h; cases h
+        | ok p1 => rw [ha] at h; exact ih (pcfInitModel_wf _ _ _ (pcfInfo_ok hi) _ hp ha) h
+
+def sysOk (l : List (Nat × String × List (Int × String))) : Bool := l.all fun x => strOk x.2.1 && valsOk x.2.2
+
+theorem pcfSysTypes_wf : ∀ (l : List (Nat × String × List (Int × String))) {p p' : Pcf}, PcfWf p → sysOk l = true →
+    pcfSysTypes l p = .ok p' → PcfWf p' := by
+  intro l
+  induction l with
+  | nil => intro p p' hp _ h; simp only [pcfSysTypes, Except.ok.injEq] at h; subst h; exact hp
+  | cons x r ih =>
+    intro p p' hp hl h
+    obtain ⟨ty, name, vals⟩ := x
+    simp only [pcfSysTypes] at h
+    unfold sysOk at hl
+    rw [List.all_cons] at hl
+    obtain ⟨hx, hr⟩ := Bool.and_eq_true_iff.mp hl
+    obtain ⟨hx1, hx2⟩ := Bool.and_eq_true_iff.mp hx
+    cases ha : pcfAddType p ty name.toList with
+    | error e => rw [ha] at h; cases h
+    | ok p1 =>
+      rw [ha] at h
+      simp only at h
+      cases hb : pcfAddValues p1 ty (vals.map fun v => (v.1, v.2.toList)) with
+      | error e => rw [hb] at h; cases h
+      | ok p2 =>
+        rw [hb] at h
+        exact ih (pcfAddValues_wf _ (pcfAddType_wf hp (strOk_no_nl hx1) ha) (valsOk_no_nl hx2) hb) hr h
+
+theorem pcfTaskTypes_wf {id : Nat} : ∀ (ts : List (Int × Text)) {p p' : Pcf}, PcfWf p → (∀ t ∈ ts, '\n' ∉ t.2) →
+    pcfTaskTypes p id ts = .ok p' → PcfWf p' := by
+  intro ts
+  induction ts with
+  | nil => intro p p' hp _ h; simp only [pcfTaskTypes, Except.ok.injEq] at h; subst h; exact hp
+  | cons t r ih =>
+    intro p p' hp hl h
+    obtain ⟨gid, label⟩ := t
+    simp only [pcfTaskTypes] at h
+    have hr : ∀ t ∈ r, '\n' ∉ t.2 := fun x hx => hl x (by simp [hx])
+    split at h
+    · split at h
+      · exact ih hp hr h
+      · cases h
+    · cases ha : pcfAddValue p id gid label with
+      | error e => rw [ha] at h; cases h
+      | ok p1 => rw [ha] at h; exact ih (pcfAddValue_wf hp (hl (gid, label) (by simp)) ha) hr h
+
+theorem pcfFinishTasks_go_wf {ty : Nat} : ∀ (ps : List (List (Int × Text))) {p p' : Pcf}, PcfWf p →
+    (∀ ts ∈ ps, ∀ t ∈ ts, '\n' ∉ t.2) → pcfFinishTasks.go ty ps p = .ok p' → PcfWf p' := by
+  intro ps
+  induction ps with
+  | nil => intro p p' hp _ h; simp only [pcfFinishTasks.go, Except.ok.injEq] at h; subst h; exact hp
+  | cons ts r ih =>
+    intro p p' hp hl h
+    simp only [pcfFinishTasks.go] at h
+    cases ha : pcfTaskTypes p ty ts with
+    | error e => rw [ha] at h; cases h
+    | ok p1 =>
+      rw [ha] at h
+      exact ih (pcfTaskTypes_wf _ hp (hl ts (by simp)) ha) (fun x hx => hl x (by simp [hx])) h
+
+theorem pcfFinishTasks_wf : ∀ (l : List (Nat × List (List (Int × Text)))) {p p' : Pcf}, PcfWf p →
+    (∀ x ∈ l, ∀ ps ∈ x.2, ∀ t ∈ ps, '\n' ∉ t.2) → pcfFinishTasks l p = .ok p' → PcfWf p' := by
+  intro l
+  induction l with
+  | nil => intro p p' hp _ h; simp only [pcfFinishTasks, Except.ok.injEq] at h; subst h; exact hp
+  | cons x r ih =>
+    intro p p' hp hl h
+    obtain ⟨ch, procs⟩ := x
+    simp only [pcfFinishTasks] at h
+    cases ht : taskTypeOf ch with
+    | none => rw [ht] at h; cases h
+    | some ty =>
+      rw [ht] at h
+      simp only at h
+      cases ha : pcfFinishTasks.go ty procs p with
+      | error e => rw [ha] at h; cases h
+      | ok p1 =>
+        rw [ha] at h
+        exact ih (pcfFinishTasks_go_wf _ hp (hl (ch, procs) (by simp)) ha) (fun y hy => hl y (by simp [hy])) h
+
+theorem sysTypes_ok : sysOk threadPcfTypes = true ∧ sysOk cpuPcfTypes = true := by decide +kernel
+
+theorem pcfWf_nil : PcfWf [] := by intro t ht; cases ht
+
+theorem cpuNames_no_nl (e : Emu) (n : Names) : ∀ nm ∈ cpuNames e n, '\n' ∉ nm := by
+  intro nm hnm
+  simp only [cpuNames, List.mem_mapIdx] at hnm
+  obtain ⟨i, _, rfl⟩ := hnm
+  exact cpuName_no_nl _ _ _
+
+/-- **thread.pcf is well formed** whenever the metadata labels are. -/
+theorem threadPcf_wf {e : Emu} {n : Names} {p : Pcf} (hn : NamesWf n) (h : threadPcf e n = .ok p) : PcfWf p := by
+  unfold threadPcf at h
+  cases h1 : pcfSysTypes threadPcfTypes [] with
+  | error er => rw [h1] at h; cases h
+  | ok p1 =>
+    rw [h1] at h
+    simp only at h
+    cases h2 : pcfAddValues p1 prvThreadCpu ((cpuNames e n).mapIdx fun g nm => ((g : Int) + 1, nm)) with
+    | error er => rw [h2] at h; cases h
+    | ok p2 =>
+      rw [h2] at h
+      simp only at h
+      cases h3 : pcfInitModels false n.marks (connectOrder e.enabled e.extra) p2 with
+      | error er => rw [h3] at h; cases h
+      | ok p3 =>
+        rw [h3] at h
+        refine pcfFinishTasks_wf _ (pcfInitModels_wf _ _ hn.1 _ (pcfAddValues_wf _
+          (pcfSysTypes_wf _ pcfWf_nil sysTypes_ok.1 h1) ?_ h2) h3) hn.2 h
+        intro v hv
+        obtain ⟨g, hg, rfl⟩ := List.mem_mapIdx.mp hv
+        exact cpuNames_no_nl e n _ (List.getElem_mem hg)
+
+/-- **cpu.pcf is well formed** whenever the metadata labels are. -/
+theorem cpuPcf_wf {e : Emu} {n : Names} {p : Pcf} (hn : NamesWf n) (h : cpuPcf e n = .ok p) : PcfWf p := by
+  unfold cpuPcf at h
+  cases h1 : pcfSysTypes cpuPcfTypes [] with
+  | error er => rw [h1] at h; cases h
+  | ok p1 =>
+    rw [h1] at h
+    simp only at h
+    cases h3 : pcfInitModels true n.marks (connectOrder e.enabled e.extra) p1 with
+    | error er => rw [h3] at h; cases h
+    | ok p3 =>
+      rw [h3] at h
+      exact pcfFinishTasks_wf _ (pcfInitModels_wf _ _ hn.1 _ (pcfSysTypes_wf _ pcfWf_nil sysTypes_ok.2 h1) h3) hn.2 h
+
 end Ovni.Emu.PvText
